@@ -119,6 +119,22 @@ func RunTruncBig(seed int64, all bool) (out []Ev) {
 					})
 				})
 				P.QueryAt(5, func(r column.Row) error { r.SetString("note", "after-huge"); return nil })
+				// and a second one whose LAST update buffer is a large one (the small column is written first): a clean
+				// end of input inside the final payload of a commit leaves nothing behind it that could still fail
+				P.Query(func(txn *column.Txn) error {
+					age := txn.Int16("age") // (the accessor's creation takes the column's place in the commit)
+					note, memo := txn.String("note"), txn.String("memo")
+					n := 0
+					return txn.Range(func(idx uint32) {
+						if idx < 16384 {
+							age.Set(int16(n % 40))
+							note.Set(strings.Repeat(string(rune('b'+n%25)), 140))
+							memo.Set(strings.Repeat(string(rune('B'+n%25)), 160))
+							n++
+						}
+					})
+				})
+				P.QueryAt(6, func(r column.Row) error { r.SetString("note", "after-huge-2"); return nil })
 			}
 		}
 	}
